@@ -1462,7 +1462,7 @@ func ConcPaths(fn *ssa.Function, cfg ConcCfg) (seqs []string, truncated bool) {
 				}
 				if h == nil && cfg.InlineAny != nil && !x.Call.IsInvoke() {
 					// an exported function of the analysed packages that the rule wants explored like a helper
-					if sc := x.Call.StaticCallee(); sc != nil && len(sc.Blocks) > 0 && sc.Synthetic == "" && curProgRoot(sc) && cfg.InlineAny(sc) {
+					if sc := x.Call.StaticCallee(); sc != nil && len(sc.Blocks) > 0 && (sc.Synthetic == "" || strings.HasPrefix(sc.Synthetic, "instance of ")) && curProgRoot(sc) && cfg.InlineAny(sc) {
 						h = sc
 					}
 				}
